@@ -72,6 +72,22 @@ func randHistory(rng *core.Rng, pfx string, maxLen int, withOpen bool) []xMsg {
 			xMsg{K: "bind", Portal: "a", Name: nm, Params: p, BindID: 900}, xMsg{K: "exec", Portal: "a"}, xMsg{K: "sync"},
 			xMsg{K: "bind", Portal: "b", Name: nm, Params: p, BindID: 901}, xMsg{K: "descP", Portal: "b"}, xMsg{K: "closeP", Portal: "a"}, xMsg{K: "sync"})
 	}
+	if rng.Intn(10) == 0 {
+		// the very same Parse again (drivers that do not track what they prepared send it before every
+		// execution), the second time after a Close of the name: the statement has to be there again
+		id := pfx + ".again"
+		nm := core.Pick(rng, xNames)
+		pm := xMsg{K: "parse", Name: nm, Query: "P " + id, Prog: xProg(id, 3+rng.Intn(2))}
+		p := [][]byte{[]byte("x"), []byte("1")}
+		h = append(h, pm, xMsg{K: "bind", Portal: "a", Name: nm, Params: p, BindID: 910}, xMsg{K: "exec", Portal: "a"})
+		if rng.Bool() {
+			h = append(h, xMsg{K: "sync"})
+		}
+		if rng.Intn(3) > 0 {
+			h = append(h, xMsg{K: "closeS", Name: nm})
+		}
+		h = append(h, pm, xMsg{K: "bind", Portal: "b", Name: nm, Params: p, BindID: 911}, xMsg{K: "descP", Portal: "b"}, xMsg{K: "exec", Portal: "b"}, xMsg{K: "sync"})
+	}
 	for i := 0; i < n; i++ {
 		id := fmt.Sprintf("%s.%d", pfx, i)
 		name := core.Pick(rng, xNames)
@@ -115,6 +131,10 @@ func randHistory(rng *core.Rng, pfx string, maxLen int, withOpen bool) []xMsg {
 				m.RFmts = []int16{0}
 			case 2:
 				m.RFmts = []int16{1}
+			case 3:
+				if rng.Intn(3) == 0 { // more codes than any statement here has columns
+					m.RFmts = []int16{0, 1, 0, 1}[:3+rng.Intn(2)]
+				}
 			}
 			if rng.Intn(15) == 0 { // unsupported format code: the Bind must fail like any other failing message
 				if rng.Bool() {
